@@ -16,7 +16,7 @@ CONSTANTS MaxLen,        \* maximal content length
 
 NL == 0
 
-VARIABLES cs,            \* the case: [segs, B, M, cut, resume, skip]  (skip: offsets_op=tail -- the job starts inside a line that must be skipped)
+VARIABLES cs,            \* the case: [segs, B, M, cut, resume, skip, op]  (skip: offsets_op=tail -- the job starts inside a line that must be skipped)
           shouldSkip,    \* Job.shouldSkip
           skipLine,      \* local of work(): loaded from Job.shouldSkip when the job is taken
           file, seg,     \* content written so far, number of appended segments
@@ -82,8 +82,15 @@ Init ==
          \E B \in 1..(Len(c) + 1) : \E M \in Ms : \E cut \in (IF M = 0 THEN {FALSE} ELSE BOOLEAN) :
            \E sk \in BOOLEAN :
            \E r \in (IF sk THEN 0..a ELSE {0} \cup {i \in NLPositions(c) : i <= a}) :
-             cs = [segs |-> <<SubSeq(c, 1, a), SubSeq(c, a + 1, b), SubSeq(c, b + 1, Len(c))>>,
-                   B |-> B, M |-> M, cut |-> cut, resume |-> r, skip |-> sk]
+           \* how the start state is established: "direct" = given; "tail" / "reset" = by initJobOffset for that offsets_op on the
+           \* file as it is at start (tail: an empty file is read from 0 with nothing to skip; otherwise start one byte before
+           \* the end and skip up to the next newline).  The op cases coincide with direct ones; the harness runs them through
+           \* the real initJobOffset and compares the state it leaves with (resume, skip).
+           \E op \in {"direct", "tail", "reset"} :
+             /\ (op = "tail" => sk = (a # 0) /\ r = (IF a = 0 THEN 0 ELSE a - 1))
+             /\ (op = "reset" => ~sk /\ r = 0)
+             /\ cs = [segs |-> <<SubSeq(c, 1, a), SubSeq(c, a + 1, b), SubSeq(c, b + 1, Len(c))>>,
+                      B |-> B, M |-> M, cut |-> cut, resume |-> r, skip |-> sk, op |-> op]
   /\ file = cs.segs[1] /\ seg = 1
   /\ pos = cs.resume /\ curOffset = cs.resume /\ tail = <<>>
   /\ shouldSkip = cs.skip /\ skipLine = FALSE
@@ -203,7 +210,7 @@ ExpectedRound(k) ==
       ep == IF k = 1 THEN <<>> ELSE Expected(cp, From(cp, cs.resume, cs.skip), cs.M, cs.cut)
   IN SubSeq(ek, Len(ep) + 1, Len(ek))
 
-ExportRec == [segs |-> cs.segs, B |-> cs.B, M |-> cs.M, cut |-> cs.cut, resume |-> cs.resume, skip |-> cs.skip,
+ExportRec == [segs |-> cs.segs, B |-> cs.B, M |-> cs.M, cut |-> cs.cut, resume |-> cs.resume, skip |-> cs.skip, op |-> cs.op,
               exp |-> [k \in 1..Len(cs.segs) |->
                          [i \in 1..Len(ExpectedRound(k)) |->
                             [off |-> ExpectedRound(k)[i].off, data |-> ExpectedRound(k)[i].data,
